@@ -191,15 +191,26 @@ macro_rules! viol {
 pub struct Inst {
     pub cfg: Config,
     pub bufs: Bufs,
-    pub alloc: LLFree<'static>,
+    /// the allocator, always wrapped in a `ZoneAlloc` (offset 0 unless requested)
+    pub zone: llfree::wrapper::ZoneAlloc<'static, LLFree<'static>>,
+    pub offset: usize,
+}
+impl std::ops::Deref for Inst {
+    type Target = llfree::wrapper::ZoneAlloc<'static, LLFree<'static>>;
+    fn deref(&self) -> &Self::Target {
+        &self.zone
+    }
 }
 impl Inst {
     pub fn create(cfg: &Config, init: Init, bufs: Bufs) -> std::result::Result<std::result::Result<Inst, Error>, String> {
+        Self::create_zone(cfg, init, bufs, 0)
+    }
+    pub fn create_zone(cfg: &Config, init: Init, bufs: Bufs, offset: usize) -> std::result::Result<std::result::Result<Inst, Error>, String> {
         let classing = cfg.classing();
         let meta = bufs.meta();
         let frames = cfg.frames;
-        match guarded(|| LLFree::new(frames, init, &classing, meta)) {
-            Ok(Ok(alloc)) => Ok(Ok(Inst { cfg: cfg.clone(), bufs, alloc })),
+        match guarded(|| llfree::wrapper::ZoneAlloc::<LLFree>::create(offset, frames, init, &classing, meta)) {
+            Ok(Ok(zone)) => Ok(Ok(Inst { cfg: cfg.clone(), bufs, zone, offset })),
             Ok(Err(e)) => Ok(Err(e)),
             Err(p) => Err(p),
         }
@@ -355,7 +366,15 @@ impl Engine {
                     "bad-op geometry-mismatch".into()
                 }
             }
-            ["new", frames, init, dflt, pol, classes] => {
+            ["new", frames, init, dflt, pol, classes, rest @ ..] => {
+                let zoff: usize = match rest {
+                    [] => 0,
+                    [z] => match z.strip_prefix("zone:").and_then(|v| v.parse().ok()) {
+                        Some(v) => v,
+                        None => return "bad-op".into(),
+                    },
+                    _ => return "bad-op".into(),
+                };
                 let (Ok(frames), Ok(dflt), Some(pol), Some(classes)) =
                     (frames.parse::<usize>(), dflt.parse::<u8>(), Self::parse_pol(pol), Self::parse_classes(classes))
                 else {
@@ -378,8 +397,8 @@ impl Engine {
                 self.twin = None;
                 let bufs = if keep {
                     let o = old.unwrap();
-                    let Inst { bufs, alloc, .. } = o;
-                    drop(alloc);
+                    let Inst { bufs, zone, .. } = o;
+                    drop(zone);
                     if init == Init::Recover {
                         // only the lower metadata is persistent
                         bufs.local.slice().fill(0);
@@ -397,7 +416,7 @@ impl Engine {
                 self.c11_ok = cfg.classes.len() == 1 && cfg.classes[0].1 == 1;
                 self.cov.hit("new", init_name(init), "");
                 let hidden_keep = if keep { self.shadow.as_ref().map(|s| s.hidden.clone()) } else { None };
-                match Inst::create(&cfg, init, bufs) {
+                match Inst::create_zone(&cfg, init, bufs, zoff) {
                     Ok(Ok(inst)) => {
                         let w = inst.words();
                         let mut sh = match init {
@@ -482,7 +501,7 @@ impl Engine {
     fn exec_call(&mut self, ws: &[&str]) -> String {
         let frames = self.inst.as_ref().unwrap().cfg.frames;
         match ws {
-            ["get", o, k, l, f] => {
+            [op @ ("get" | "zget"), o, k, l, f] => {
                 let (Ok(order), Ok(class), Some(local), Some(target)) =
                     (o.parse::<usize>(), k.parse::<u8>(), parse_opt(l), parse_opt(f))
                 else {
@@ -490,9 +509,48 @@ impl Engine {
                 };
                 let before = digest(&self.inst.as_ref().unwrap().words());
                 let req = Request::new(order, Class(class), local);
+                let zoff = if *op == "zget" { self.inst.as_ref().unwrap().offset } else { 0 };
+                let ztarget = target;
+                // the inner (zone-relative) target the oracles reason about
+                let target = match target {
+                    Some(t) if t < zoff => {
+                        // C17/C08: frames below the zone offset are rejected
+                        let z = &self.inst.as_ref().unwrap().zone;
+                        let r = guarded(|| z.get(Some(FrameId(t)), req));
+                        self.cov.oracle("C17");
+                        if !matches!(r, Ok(Err(Error::Argument))) || digest(&self.inst.as_ref().unwrap().words()) != before {
+                            viol!(self, "C17", format!("zone get below the offset: {r:?}"));
+                        }
+                        self.cov.hit("zget", "below", "");
+                        return match r {
+                            Ok(Ok((f, c))) => format!("ok {} {}", f.0, c.0),
+                            Ok(Err(e)) => err_str(e).into(),
+                            Err(p) => format!("panic {p}"),
+                        };
+                    }
+                    Some(t) => Some(t - zoff),
+                    None => None,
+                };
                 let r = {
-                    let a = &self.inst.as_ref().unwrap().alloc;
-                    guarded(|| a.get(target.map(FrameId), req))
+                    let i = self.inst.as_ref().unwrap();
+                    if *op == "zget" {
+                        let z = &i.zone;
+                        match guarded(|| z.get(ztarget.map(FrameId), req)) {
+                            Ok(Ok((f, c))) => {
+                                self.cov.oracle("C17");
+                                if f.0 < zoff {
+                                    viol!(self, "C17", format!("zone get returned frame {} below the offset {zoff}", f.0));
+                                    Ok(Ok((FrameId(0), c)))
+                                } else {
+                                    Ok(Ok((FrameId(f.0 - zoff), c)))
+                                }
+                            }
+                            x => x,
+                        }
+                    } else {
+                        let a = &i.alloc;
+                        guarded(|| a.get(target.map(FrameId), req))
+                    }
                 };
                 let twin_r = self.twin.as_ref().map(|t| guarded(|| t.alloc.get(target.map(FrameId), req)));
                 let drained = std::mem::replace(&mut self.just_drained, false);
@@ -534,7 +592,7 @@ impl Engine {
                             sh.apply_get(frame, order);
                         }
                         self.held.push((frame, order));
-                        format!("ok {frame} {}", cls.0)
+                        format!("ok {} {}", frame + zoff, cls.0)
                     }
                     Ok(Err(e)) => {
                         self.cov.hit("get", err_str(*e), &format!("o{order} t{} l{}", target.is_some(), local.is_some()));
@@ -594,7 +652,7 @@ impl Engine {
                 self.check_abs(&ws.join(" "));
                 ans
             }
-            ["put", f, o, k, l] => {
+            [op @ ("put" | "zput"), f, o, k, l] => {
                 let (Ok(frame), Ok(order), Ok(class), Some(local)) =
                     (f.parse::<usize>(), o.parse::<usize>(), k.parse::<u8>(), parse_opt(l))
                 else {
@@ -602,9 +660,32 @@ impl Engine {
                 };
                 let before = digest(&self.inst.as_ref().unwrap().words());
                 let req = Request::new(order, Class(class), local);
+                let zoff = if *op == "zput" { self.inst.as_ref().unwrap().offset } else { 0 };
+                if frame < zoff {
+                    let z = &self.inst.as_ref().unwrap().zone;
+                    let r = guarded(|| z.put(FrameId(frame), req));
+                    self.cov.oracle("C17");
+                    if !matches!(r, Ok(Err(Error::Argument))) || digest(&self.inst.as_ref().unwrap().words()) != before {
+                        viol!(self, "C17", format!("zone put below the offset: {r:?}"));
+                    }
+                    self.cov.hit("zput", "below", "");
+                    return match r {
+                        Ok(Ok(())) => "ok".into(),
+                        Ok(Err(e)) => err_str(e).into(),
+                        Err(p) => format!("panic {p}"),
+                    };
+                }
+                let zframe = frame;
+                let frame = frame - zoff;
                 let r = {
-                    let a = &self.inst.as_ref().unwrap().alloc;
-                    guarded(|| a.put(FrameId(frame), req))
+                    let i = self.inst.as_ref().unwrap();
+                    if *op == "zput" {
+                        let z = &i.zone;
+                        guarded(|| z.put(FrameId(zframe), req))
+                    } else {
+                        let a = &i.alloc;
+                        guarded(|| a.put(FrameId(frame), req))
+                    }
                 };
                 let twin_r = self.twin.as_ref().map(|t| guarded(|| t.alloc.put(FrameId(frame), req)));
                 self.just_drained = false;
@@ -905,6 +986,29 @@ impl Engine {
                         }
                         format!("panic {p}")
                     }
+                }
+            }
+            ["zstatsat", f, o] => {
+                let (Ok(frame), Ok(order)) = (f.parse::<usize>(), o.parse::<usize>()) else { return "bad-op".into() };
+                let i = self.inst.as_ref().unwrap();
+                let z = &i.zone;
+                let r = guarded(|| z.stats_at(FrameId(frame), order));
+                self.cov.oracle("C17");
+                match r {
+                    Ok(s) => {
+                        if frame >= i.offset && frame - i.offset < frames {
+                            let a = &i.alloc;
+                            let inner = guarded(|| a.stats_at(FrameId(frame - i.offset), order));
+                            if inner.as_ref().ok().map(stats_str) != Some(stats_str(&s)) {
+                                viol!(self, "C17", format!("zone stats_at({frame},{order}) = {s:?}, inner at {} = {inner:?}", frame - i.offset));
+                            }
+                        } else if frame < i.offset && (s.free_frames, s.free_huge, s.free_trees) != (0, 0, 0) {
+                            viol!(self, "C17", format!("zone stats_at({frame},{order}) below the offset is not empty: {s:?}"));
+                        }
+                        self.cov.hit("zstatsat", "ok", "");
+                        stats_str(&s)
+                    }
+                    Err(p) => format!("panic {p}"),
                 }
             }
             ["isfree", f, o] => {
